@@ -308,6 +308,13 @@ func nodeItems(n map[string]any) []string {
 		if d, ok := n["dflt"].(string); ok {
 			items = append(items, "default "+yq(d)+";")
 		}
+		if ms := carr(n, "musts"); len(ms) > 0 { // one item: their relative order is what the compiled node shows
+			var parts []string
+			for _, m := range ms {
+				parts = append(parts, "must "+yq(m.(string))+";")
+			}
+			items = append(items, strings.Join(parts, " "))
+		}
 	case "leaf-list":
 		items = append(items, strings.TrimSpace(renderType(cmap(n, "type"))))
 		cfg()
@@ -394,6 +401,9 @@ func renderNode(b *strings.Builder, n map[string]any, ind string) {
 		if d, ok := n["dflt"].(string); ok {
 			b.WriteString(" default " + yq(d) + ";")
 		}
+		for _, m := range carr(n, "musts") {
+			b.WriteString(" must " + yq(m.(string)) + ";")
+		}
 		b.WriteString(" }\n")
 		return
 	case "leaf-list":
@@ -418,10 +428,17 @@ func renderNode(b *strings.Builder, n map[string]any, ind string) {
 			b.WriteString(ind + "  default " + d + ";\n")
 		}
 	case "case":
+		if cbool(n, "_shorthand") { // the case written as its single data definition
+			renderNode(b, carr(n, "kids")[0].(map[string]any), ind)
+			return
+		}
 		b.WriteString(ind + "case " + name + " {" + cfgStatusStmts(n) + "\n")
 	}
 	for _, k := range carr(n, "kids") {
 		renderNode(b, k.(map[string]any), ind+"  ")
+	}
+	if d := cstr(n, "_descAfter"); d != "" { // a statement written after the children
+		b.WriteString(ind + "  description " + yq(d) + ";\n")
 	}
 	b.WriteString(ind + "}\n")
 }
